@@ -11,7 +11,7 @@ func init() {
 			}
 			return "rankings: <= 3 assets x <= 3 results; protocol: <= 2 assets, <= 3 snapshots, <= 2 strategies; workers 1..2"
 		},
-		outside:     "HTML rendering and file output (text/template, os: stubbed symbolically, real in the native replay), more than two workers beyond one configuration, other job assignments than the explored one for Workers >= 2 (the certificate is not issued there), strategy reports written per strategy (WriteStrategyReports=false), cmd/indicator-backtest",
+		outside:     "HTML rendering and file output (text/template, os: stubbed symbolically, real in the native replay), more than two workers beyond one configuration, job assignments other than those produced by the executor's three scheduling policies for Workers >= 2 (the certificate is not issued there), strategy reports written per strategy (WriteStrategyReports=false), cmd/indicator-backtest",
 		assumptions: append([]string{"day-number model of time.Time with a symbolic 'now'", realModeNote}, commonAssumptions...),
 		cases: func(tier string, pr *prober) []sym.CaseSpec {
 			out := selfTests()
@@ -46,9 +46,15 @@ func init() {
 				for nst := 1; nst <= 2; nst++ {
 					for w := 1; w <= 2; w++ {
 						for html := 0; html <= 1; html++ {
-							c := cs("H_C13_Workers", na, 2, nst, w, html)
-							c.Cert, c.TrackMem = true, true
-							out = append(out, c)
+							for sched := 0; sched <= 2; sched++ {
+								if w == 1 && sched > 0 {
+									continue
+								}
+								c := cs("H_C13_Workers", na, 2, nst, w, html)
+								c.Cert, c.TrackMem = true, true
+								c.Sched = sched
+								out = append(out, c)
+							}
 						}
 					}
 				}
